@@ -489,12 +489,26 @@ func (x *Decimal) Float(z *big.Float) *big.Float {
 // the result is (+Inf, Above) or (-Inf, Below), depending on the sign of x.
 func (x *Decimal) Float32() (float32, Accuracy) {
 	z := x.Float(new(big.Float).SetPrec(32))
-	f, a := z.Float32()
-	// If big.Float -> float64 conversion is accurate, use Decimal->Float accuracy.
-	if a == big.Exact {
-		a = z.Acc()
+	f, _ := z.Float32()
+	return f, x.floatAcc(float64(f))
+}
+
+// floatAcc returns the accuracy of f as a conversion of x: the sign of f - x.
+func (x *Decimal) floatAcc(f float64) Accuracy {
+	switch {
+	case x.form != finite:
+		return Exact
+	case math.IsInf(f, 0):
+		return makeAcc(f > 0)
+	case f == 0 || x.exp < -400:
+		// 0 < |x| and f is a zero or closer to zero than x
+		return makeAcc(x.neg)
+	case x.exp > 400:
+		return makeAcc(!x.neg)
 	}
-	return f, Accuracy(a)
+	// compare exactly; x is small enough to be converted to a Rat
+	r, _ := x.Rat(nil)
+	return Accuracy(new(big.Rat).SetFloat64(f).Cmp(r))
 }
 
 // Float64 returns the float64 value nearest to x. If x is too small to be
@@ -504,12 +518,8 @@ func (x *Decimal) Float32() (float32, Accuracy) {
 // the result is (+Inf, Above) or (-Inf, Below), depending on the sign of x.
 func (x *Decimal) Float64() (float64, Accuracy) {
 	z := x.Float(new(big.Float).SetPrec(64))
-	f, a := z.Float64()
-	// If big.Float -> float64 conversion is accurate, use Decimal->Float accuracy.
-	if a == big.Exact {
-		a = z.Acc()
-	}
-	return f, Accuracy(a)
+	f, _ := z.Float64()
+	return f, x.floatAcc(f)
 }
 
 // Int returns the result of truncating x towards zero; or nil if x is an
